@@ -1,0 +1,46 @@
+// SPDX-License-Identifier: MIT
+
+//go:build verif
+
+package rtcp
+
+// Verification hooks: re-exports of unexported helpers so that an external
+// harness can drive them directly. Compiled only with -tags verif.
+
+// VerifUnmarshalOne exposes the single-frame step of Unmarshal.
+func VerifUnmarshalOne(rawData []byte) (Packet, int, error) { return unmarshal(rawData) }
+
+// VerifGetPadding exposes getPadding.
+func VerifGetPadding(n int) int { return getPadding(n) }
+
+// VerifSetNBitsOfUint16 exposes setNBitsOfUint16.
+func VerifSetNBitsOfUint16(src, size, startIndex, val uint16) (uint16, error) {
+	return setNBitsOfUint16(src, size, startIndex, val)
+}
+
+// VerifAppendNBitsToUint32 exposes appendNBitsToUint32.
+func VerifAppendNBitsToUint32(src, n, val uint32) uint32 { return appendNBitsToUint32(src, n, val) }
+
+// VerifGetNBitsFromByte exposes getNBitsFromByte.
+func VerifGetNBitsFromByte(b byte, begin, n uint16) uint16 { return getNBitsFromByte(b, begin, n) }
+
+// VerifGet24BitsFromBytes exposes get24BitsFromBytes.
+func VerifGet24BitsFromBytes(b []byte) uint32 { return get24BitsFromBytes(b) }
+
+// VerifMarshal exposes CCFeedbackReportBlock.marshal.
+func (b CCFeedbackReportBlock) VerifMarshal() ([]byte, error) { return b.marshal() }
+
+// VerifUnmarshal exposes CCFeedbackReportBlock.unmarshal.
+func (b *CCFeedbackReportBlock) VerifUnmarshal(rawPacket []byte) error { return b.unmarshal(rawPacket) }
+
+// VerifMarshal exposes CCFeedbackMetricBlock.marshal.
+func (b CCFeedbackMetricBlock) VerifMarshal() ([]byte, error) { return b.marshal() }
+
+// VerifUnmarshal exposes CCFeedbackMetricBlock.unmarshal.
+func (b *CCFeedbackMetricBlock) VerifUnmarshal(rawPacket []byte) error { return b.unmarshal(rawPacket) }
+
+// VerifWireSize exposes wireSize.
+func VerifWireSize(v interface{}) int { return wireSize(v) }
+
+// VerifStringify exposes stringify.
+func VerifStringify(p Packet) string { return stringify(p) }
